@@ -271,8 +271,8 @@ _DEFAULT_LOGIN_TIMEOUT = 120        # 2 minutes
 _DEFAULT_KEEPALIVE_INTERVAL = 0     # disabled by default
 _DEFAULT_KEEPALIVE_COUNT_MAX = 3
 
-# Largest SSH packet that will be buffered
-_MAX_PACKET_LEN = 16*1024*1024      # 16 MiB
+# Largest SSH packet that will be buffered (same as OpenSSH)
+_MAX_PACKET_LEN = 256*1024          # 256 KiB
 
 # Default channel parameters
 _DEFAULT_WINDOW = 2*1024*1024       # 2 MiB
